@@ -16,8 +16,12 @@ structure MState where
   lc : LStream := LStream.init 0
   ls : LStream := LStream.init 0
 
+/-- `<key>:<hex>` for chunks of at most 32 bytes, `<key>:#<len>.<fnv64>` for longer ones (harness/c06_show.h) -/
+def showChunk (c : Nat × Bytes) : String :=
+  if c.2.length ≤ 32 then s!"{c.1}:{toHex c.2}" else s!"{c.1}:#{c.2.length}.{fnv c.2}"
+
 def showChunks (m : Chunks) : String :=
-  joinWith "," ((sortByKey m).map (fun (k, d) => s!"{k}:{toHex d}"))
+  joinWith "," ((sortByKey m).map showChunk)
 
 def showState (r : String) (t : Tracker) : String :=
   s!"{r} seq={t.seq} total={t.total} plen={t.payload.length} ph={fnv t.payload} buf={showChunks t.buf}"
@@ -112,11 +116,35 @@ structure OState where
 def kv (ws : List String) (key : String) : Option String :=
   ws.findSome? (fun w => if w.startsWith (key ++ "=") then some ((w.drop (key.length + 1)).toString) else none)
 
-def parseBuf (s : String) : Option Chunks :=
+/-- a buffered chunk as printed by a harness: its bytes, or (for long chunks) length and FNV-1a 64 -/
+inductive ChunkRepr
+  | data (d : Bytes)
+  | hashed (len : Nat) (h : Nat)
+
+def parseBuf (s : String) : Option (List (Nat × ChunkRepr)) :=
   if s == "" then some [] else
   (s.splitOn ",").mapM (fun item => match item.splitOn ":" with
-    | [k, h] => do let k ← k.toNat?; let d ← parseHex h; pure (k, d)
+    | [k, h] => do
+      let k ← k.toNat?
+      if h.startsWith "#" then
+        match ((h.drop 1).toString).splitOn "." with
+        | [l, f] => do let l ← l.toNat?; let f ← f.toNat?; pure (k, ChunkRepr.hashed l f)
+        | _ => none
+      else do let d ← parseHex h; pure (k, ChunkRepr.data d)
     | _ => none)
+
+/-- A hashed chunk is turned back into bytes for `specOKat`: the slice of the stream it must equal if length and
+    hash match that slice, otherwise bytes that make the check fail (out of bounds → the length alone fails it;
+    hash mismatch → every byte differs from the slice). -/
+def resolveChunk (s : Bytes) (k seq : Nat) (c : Nat × ChunkRepr) : Nat × Bytes :=
+  match c.2 with
+  | .data d => (c.1, d)
+  | .hashed len h =>
+    let a := k + sub32 c.1 seq
+    let d := (s.drop a).take len
+    if d.length == len && (fnv d).toNat == h then (c.1, d)
+    else if d.length == len then (c.1, d.map (· + 1))
+    else (c.1, List.replicate len 0)
 
 def parseInt (s : String) : Option Int :=
   if s.startsWith "-" then (s.drop 1).toString.toNat?.map (fun n => - (n : Int)) else s.toNat?.map (fun n => (n : Int))
@@ -156,7 +184,7 @@ structure Seen where
   total : Option Nat
   plen : Nat
   ph : Nat
-  buf : Chunks
+  buf : List (Nat × ChunkRepr)
 
 def parseSeen (out : String) : Option Seen :=
   let ow := words out
@@ -197,8 +225,9 @@ def specStep (st : OState) (line : String) : OState × String :=
       let pref := st'.s.take k
       if seen.plen != k || seen.ph != (fnv pref).toNat then (st', s!"violates delivered-prefix k={k} plen={seen.plen}")
       else
-        let total := seen.total.getD (seen.buf.map (fun c => c.2.length)).sum   -- the legacy stream has no counter
-        if !specOKat st'.s st'.isn k ⟨seen.seq, total, pref, seen.buf⟩ then (st', s!"violates buffered-state k={k}")
+        let buf : Chunks := seen.buf.map (resolveChunk st'.s k seen.seq)
+        let total := seen.total.getD (buf.map (fun c => c.2.length)).sum   -- the legacy stream has no counter
+        if !specOKat st'.s st'.isn k ⟨seen.seq, total, pref, buf⟩ then (st', s!"violates buffered-state k={k}")
         else
           -- callbacks: the data callback / `true` result exactly when the delivered prefix grew; the
           -- out-of-order callback exactly when the segment lies entirely below the delivery point or starts above it
